@@ -42,6 +42,8 @@ func rulesC13(c *Ctx) {
 	ruleC13Checker(c)
 	ruleC13Nil(c)
 	ruleC13Codec(c)
+	ruleBucketMemoInvalidated(c, "C13.BUCKETMEMO")
+	ruleParentChain(c, "C13.CHAIN")
 	ruleC13List(c)
 	ruleC13ListMark(c)
 	ruleProceedTable(c, "C13.PROCEED")
